@@ -48,12 +48,12 @@ def parse_block_string(raw_string: str) -> str:
         str: Parsed block string.
 
     """
-    lines = raw_string.splitlines()
+    lines = LINE_SEPARATOR.split(raw_string)
 
     common_indent = sys.maxsize
 
     for line in lines[1:]:
-        inner_len = len(line.lstrip())
+        inner_len = len(line.lstrip(" \t"))
         if inner_len:
             common_indent = min(common_indent, len(line) - inner_len)
 
@@ -61,10 +61,10 @@ def parse_block_string(raw_string: str) -> str:
         for i, line in enumerate(lines[1:]):
             lines[i + 1] = line[common_indent:]
 
-    while lines and (not lines[0].lstrip()):
+    while lines and (not lines[0].lstrip(" \t")):
         lines.pop(0)
 
-    while lines and (not lines[-1].lstrip()):
+    while lines and (not lines[-1].lstrip(" \t")):
         lines.pop()
 
     return "\n".join(lines)
